@@ -202,6 +202,9 @@ class Eval(RestrictionCapableEval):
             code = self.ucode
             d = {'_': md, '_vars': md}
         d.update(self.globals)
+        if gattr is not None and gitem is not None:
+            # the template's item guard wins over a default in ``globals``
+            d['_getitem_'] = gitem
         for name in self.used:
             __traceback_info__ = name
             try:
